@@ -133,7 +133,7 @@ class Gen:
         allowed = tag_allowed(self.P, tag, bool(excflag), self.sername)
         if recursed and not allowed:
             self.must_raise = True
-        inner_rec = self.sername == "msgpack"      # msgpack's object_hook visits every dict; the others stop at a tagged dict
+        inner_rec = False      # members of a class dict are that class's data: whether a decoder looks inside is not part of the statement
         # members (options are thunks: generating a nested tagged dict has the side effect of marking must_raise)
         V = lambda rec_: (lambda: self.value(depth, rec_))
         C = lambda v: (lambda: v)
@@ -157,6 +157,18 @@ class Gen:
             d["exception"] = pick([(lambda: self.tagged(depth - 1, wrapped_rec)) if depth > 0 else C(None), C("str"), C(None), C({"a": 1}), C(5)])
         if r.random() < 0.2:
             d["value"] = r.choice(["nan", "inf", "1.5", "1e999", "abc", None, [1], "__import__('os')"])
+        if r.random() < 0.25 and depth > 0:
+            # a member of any shape: in particular closed-set classes (Proxy, URI, exceptions) nested where a sequence or dict is expected
+            member = r.choice([m for m in ["args", "state", "attributes", "exception", "value", "extra2"] if m not in d])   # never overwrite (a dropped value may have marked must_raise)
+            nested = r.choice([
+                lambda: {"__class__": "Pyro5.client.Proxy", "state": ["PYRO:victim@127.0.0.1:9", [], [], [], "hello", None]},
+                lambda: {"__class__": "Pyro5.client.Proxy", "state": ["PYRO:victim@./u:/nonexistent-c04-sock", ["m"], [], [], "hello", None]},
+                lambda: {"__class__": "Pyro5.core.URI", "state": ["PYRO", "obj", None, "127.0.0.1", 9]},
+                lambda: {"__class__": "ValueError", "__exception__": True, "args": ["inner"]},
+                lambda: {"__class__": "Pyro5.server.Daemon", "state": []},
+                lambda: self.tagged(depth - 1, inner_rec),
+            ])()
+            d[member] = nested if r.random() < 0.6 else [nested]
         if r.random() < 0.2:
             d[r.choice(["extra", "_pyroDaemon", "__init__", "object"])] = self.value(depth, inner_rec)
         return d
@@ -344,10 +356,14 @@ def setup():
 def plan(tier, seed):
     n = 8 if tier == "quick" else 16
     per = 25000 if tier == "quick" else 150000
-    return [{"i": i, "n": per} for i in range(n)]
+    return [{"i": i, "n": per} for i in range(n)] + ([{"kind": "e10"}] if tier == "thorough" else [])
 
 
 def run_shard(shard, rec):
+    if shard.get("kind") == "e10":
+        from vlib import e10
+        e10.run_e10("C04", rec)
+        return
     env = setup()
     P = env[0]
     r = gen.rng(rec.seed, "c04", shard["i"])
